@@ -657,11 +657,11 @@ def starred_random_tuple(e):
 
 def classify(text, err, tree=None):
     """Narrow mechanism keys for confirmed defects."""
-    if tree is not None and "RandomControlFlowError" in err and random_self_scalarop(tree):
-        return "vectors.scalarOperator-ignores-random-self"
     if tree is not None and "cannot iterate through a random value" in err and starred_random_tuple(tree):
         # `*x` is lifted only in call arguments (veneer.callWithStarArgs); in tuple/list displays a random tuple is iterated directly
         return "compiler.starred-random-value-in-display-not-lifted"
+    if tree is not None and "RandomControlFlowError" in err and random_self_scalarop(tree):
+        return "vectors.scalarOperator-ignores-random-self"
     if "name 'bz' is not defined" in err and ".cross(" in text:
         return "vectors.cross-undefined-bz"
     if "cannot iterate through a random value" in err and any(m in text for m in (".distanceTo(", ".angleTo(", ".dot(")):
@@ -748,6 +748,13 @@ def check_program(exprs, gen, res, bump, nscenes, seed):
                 bump("mismatches")
                 text = show(e)
                 key = classify_mismatch(text, m, got)
+                if key is None and type(got).__name__ == "ndarray" and isinstance(ref, tuple) and ref and ref[0] == "V":
+                    import numpy
+
+                    if numpy.allclose(numpy.asarray(got, dtype=float), [float(c) for c in ref[1:]], rtol=1e-11, atol=1e-11):
+                        # TruncatedNormal (scipy) samples are numpy.float64; numpy.float64 * Vector is computed by
+                        # numpy and yields an ndarray instead of a Vector (value right, type wrong)
+                        key = "distributions.numpy-float64-sample-times-vector-gives-ndarray"
                 if key is None and random_self_scalarop(e):
                     # (the un-sampled coordinates leak into the value, or into later arithmetic on it)
                     key = "vectors.scalarOperator-ignores-random-self"
